@@ -1,0 +1,141 @@
+//go:build verif && (verif_all || verif_c08)
+// +build verif
+// +build verif_all verif_c08
+
+package gocql
+
+// Verification hooks (build tag `verif`), second file for C08: "any history" presets. State of the
+// stream-id allocator that depends on the NUMBER of past calls (the rotating start offset, counters)
+// cannot be driven to the ends of its representation range by a test (2^32 calls); these hooks read
+// and store the integer fields of internal/streams.IDGenerator by NAME through reflection, so that they
+// keep compiling and working when a field changes its integer type (uint32 -> uint64, int32 ->
+// atomic.Int32, ...) or disappears (then ok=false). Add-only; nothing of gocql calls them.
+
+import (
+	"reflect"
+	"sync/atomic"
+	"unsafe"
+)
+
+// verifIntField finds the integer field `name` of the generator: the field itself if it is of an integer
+// kind, or the first integer field of a struct-typed field (sync/atomic.Int32, Uint32, ... keep their value
+// in a field `v`; atomic.Int64/Uint64 have an alignment marker in front of it).
+func (v *VerifStreams) verifIntField(name string) (reflect.Value, bool) {
+	if v == nil || v.g == nil {
+		return reflect.Value{}, false
+	}
+	f := reflect.ValueOf(v.g).Elem().FieldByName(name)
+	if !f.IsValid() {
+		return reflect.Value{}, false
+	}
+	for depth := 0; depth < 3; depth++ {
+		switch f.Kind() {
+		case reflect.Int, reflect.Int8, reflect.Int16, reflect.Int32, reflect.Int64,
+			reflect.Uint, reflect.Uint8, reflect.Uint16, reflect.Uint32, reflect.Uint64, reflect.Uintptr:
+			if !f.CanAddr() {
+				return reflect.Value{}, false
+			}
+			return reflect.NewAt(f.Type(), unsafe.Pointer(f.UnsafeAddr())).Elem(), true
+		case reflect.Struct:
+			var inner reflect.Value
+			for i := 0; i < f.NumField(); i++ {
+				switch f.Field(i).Kind() {
+				case reflect.Int, reflect.Int8, reflect.Int16, reflect.Int32, reflect.Int64,
+					reflect.Uint, reflect.Uint8, reflect.Uint16, reflect.Uint32, reflect.Uint64, reflect.Uintptr:
+					inner = f.Field(i)
+				}
+				if inner.IsValid() {
+					break
+				}
+			}
+			if !inner.IsValid() {
+				return reflect.Value{}, false
+			}
+			f = inner
+		default:
+			return reflect.Value{}, false
+		}
+	}
+	return reflect.Value{}, false
+}
+
+// VerifIntFields lists the names of the integer-valued fields of the generator (direct integer kinds and
+// single-integer structs such as sync/atomic.Uint32), in declaration order.
+func (v *VerifStreams) VerifIntFields() []string {
+	if v == nil || v.g == nil {
+		return nil
+	}
+	t := reflect.TypeOf(v.g).Elem()
+	var names []string
+	for i := 0; i < t.NumField(); i++ {
+		if _, ok := v.verifIntField(t.Field(i).Name); ok {
+			names = append(names, t.Field(i).Name)
+		}
+	}
+	return names
+}
+
+// VerifFieldBits returns the width in bits and the signedness of the integer field `name`.
+func (v *VerifStreams) VerifFieldBits(name string) (bits int, signed bool, ok bool) {
+	f, ok := v.verifIntField(name)
+	if !ok {
+		return 0, false, false
+	}
+	switch f.Kind() {
+	case reflect.Int, reflect.Int8, reflect.Int16, reflect.Int32, reflect.Int64:
+		signed = true
+	}
+	return f.Type().Bits(), signed, true
+}
+
+// VerifGetField reads the integer field `name` (as the two's-complement bit pattern, zero- or
+// sign-extended to 64 bits according to its type). Must not race with calls into the generator.
+func (v *VerifStreams) VerifGetField(name string) (val uint64, ok bool) {
+	f, ok := v.verifIntField(name)
+	if !ok {
+		return 0, false
+	}
+	switch f.Kind() {
+	case reflect.Int, reflect.Int8, reflect.Int16, reflect.Int32, reflect.Int64:
+		return uint64(f.Int()), true
+	}
+	return f.Uint(), true
+}
+
+// VerifSetField stores val (truncated to the width of the field) into the integer field `name`.
+// Must not race with calls into the generator (the harness calls it between calls only).
+func (v *VerifStreams) VerifSetField(name string, val uint64) (ok bool) {
+	f, ok := v.verifIntField(name)
+	if !ok {
+		return false
+	}
+	switch f.Kind() {
+	case reflect.Int, reflect.Int8, reflect.Int16, reflect.Int32, reflect.Int64:
+		f.SetInt(int64(val) << (64 - uint(f.Type().Bits())) >> (64 - uint(f.Type().Bits())))
+	default:
+		f.SetUint(val << (64 - uint(f.Type().Bits())) >> (64 - uint(f.Type().Bits())))
+	}
+	return true
+}
+
+// VerifWords copies the bitset (field `streams`, a []uint64 read with atomic loads) into dst and returns it;
+// ok=false if the field is not a []uint64 any more (the caller then falls back to String()).
+func (v *VerifStreams) VerifWords(dst []uint64) (ws []uint64, ok bool) {
+	if v == nil || v.g == nil {
+		return nil, false
+	}
+	f := reflect.ValueOf(v.g).Elem().FieldByName("streams")
+	if !f.IsValid() || f.Kind() != reflect.Slice || f.Type().Elem().Kind() != reflect.Uint64 {
+		return nil, false
+	}
+	n := f.Len()
+	dst = dst[:0]
+	if n == 0 {
+		return dst, true
+	}
+	base := f.Index(0).UnsafeAddr()
+	for i := 0; i < n; i++ {
+		dst = append(dst, atomic.LoadUint64((*uint64)(unsafe.Pointer(base+uintptr(i)*8))))
+	}
+	return dst, true
+}
